@@ -1,14 +1,40 @@
 use super::{constant::*, ConfigEntity};
 use crate::{base::ResourceType, logging, utils, Error, Result};
 use serde_yaml;
+use lazy_static::lazy_static;
 use std::cell::RefCell;
 use std::env;
 use std::fs::File;
 use std::io::prelude::*;
 use std::path::Path;
+use std::sync::Mutex;
 
-thread_local! {
-    static GLOBAL_CONFIG : RefCell<ConfigEntity> = RefCell::new(ConfigEntity::new());
+/// The configuration of the process. It used to be a `thread_local!`, which made a configuration set
+/// during initialisation invisible to every other thread; the accessors below keep the `LocalKey`-style
+/// `with`/`try_with` interface.
+struct GlobalConfig(Mutex<RefCell<ConfigEntity>>);
+
+impl GlobalConfig {
+    fn with<F, R>(&self, f: F) -> R
+    where
+        F: FnOnce(&RefCell<ConfigEntity>) -> R,
+    {
+        // the configuration stays usable even if a thread panicked while holding it
+        let guard = self.0.lock().unwrap_or_else(|e| e.into_inner());
+        f(&guard)
+    }
+
+    fn try_with<F, R>(&self, f: F) -> std::result::Result<R, std::convert::Infallible>
+    where
+        F: FnOnce(&RefCell<ConfigEntity>) -> R,
+    {
+        Ok(self.with(f))
+    }
+}
+
+lazy_static! {
+    static ref GLOBAL_CONFIG: GlobalConfig =
+        GlobalConfig(Mutex::new(RefCell::new(ConfigEntity::new())));
 }
 
 pub fn reset_global_config(entity: ConfigEntity) {
@@ -227,7 +253,10 @@ pub fn global_stat_sample_count_total() -> u32 {
 #[inline]
 pub fn global_stat_bucket_length_ms() -> u32 {
     GLOBAL_CONFIG
-        .try_with(|_c| global_stat_interval_ms_total() / global_stat_sample_count_total())
+        .try_with(|c| {
+            let c = c.borrow();
+            c.config.stat.interval_ms_total / c.config.stat.sample_count_total
+        })
         .unwrap()
 }
 
